@@ -17,7 +17,7 @@ def duration(self: Transport):
     trylast=True  # do not override getting from in_profile
 )
 def conti_velocity(self: Transport):
-    if self.has_set_or_cached("length"):  # probably indicates conti process
+    if self.has_value("length"):  # probably indicates conti process
         try:
             prev = self.prev
         except (IndexError, ValueError):
